@@ -208,6 +208,7 @@ class RealRunner:
                 memo, hit = orig(prov)
                 captured["hit"] = bool(hit)
                 captured["memo"] = json.loads(memo.model_dump_json())
+                captured["obj"] = memo
                 return memo, hit
             mz.memoize = spy
             try:
@@ -218,6 +219,21 @@ class RealRunner:
                     out = {"exc": type(e).__name__, "msg": str(e)[:200]}
             finally:
                 del mz.memoize
+            # the provider memoize() handed out for the PREVIOUS request to this memoizer is a value of its own: asked
+            # again now, after this request, it still answers what it answered then
+            late = None
+            handed = self.__dict__.setdefault("handed_out", {})
+            if hkey in handed:
+                old_obj, old_env = handed.pop(hkey)
+                try:
+                    again = old_obj.get_simulation_environment().model_dump(mode="json")
+                except Exception as e:  # noqa: BLE001
+                    again = {"exc": type(e).__name__}
+                if again != old_env:
+                    late = {"differs_in": sorted(k for k in set(old_env) | set(again)
+                                                 if old_env.get(k) != (again.get(k) if isinstance(again, dict) else None))[:8]}
+            if "obj" in captured and "ok" in out:
+                handed[hkey] = (captured["obj"], out["ok"])
             if "hit" not in captured:
                 if "ok" in out:
                     # an answer that did not go through memoize() at all: still an answer, judged against the direct one
@@ -230,7 +246,7 @@ class RealRunner:
                 want_indep = jnorm(p.get_memoization_independent_environment())
             except Exception as e:  # noqa: BLE001
                 want_indep = {"exc": type(e).__name__}
-            return {"kind": "answer", "hit": captured["hit"], "env": out, "key": key,
+            return {"kind": "answer", "hit": captured["hit"], "env": out, "key": key, "late": late,
                     "entry_sha": hashlib.sha256(text.encode()).hexdigest()[:16] if text is not None else None,
                     "memo_part": captured["memo"]["memoizable_environment"],
                     "indep_part": captured["memo"]["independent_environment"], "want_indep": want_indep}
@@ -996,6 +1012,10 @@ def main(ck):
                                     "environment_equal_to_direct": same})
             if r.get("bypassed_memo"):
                 continue
+            if r.get("late"):
+                evaluations += 1
+                report("the provider memoize() handed out for the previous request to this memoizer still answers the same "
+                       "after this request", differs_in=r["late"]["differs_in"])
             # independent part from the current request
             evaluations += 1
             if r["indep_part"] != r["want_indep"]:
